@@ -13,13 +13,13 @@ import (
 func init() {
 	register(&PropDef{
 		ID: "C17", Level: "exploration", Quick: 7500, Thorough: 250000, QuickCap: 110,
-		Rule: "each run = one tape of 3-40 pre-drawn operation records executed against three servers (btree, leveldb-memory, leveldb-disk): table create/delete/re-create, family changes, DropRowRange prefix/all, MutateRow(s), CheckAndMutateRow, ReadModifyWriteRow, reads with row sets, limits and filter trees (including invalid nodes that evaluation reaches only on some rows, so the scan fails part-way), SampleRowKeys with identical sampler draws; the normalised responses (status code, rows and cells in order, predicate results, per-entry statuses, table lists and schemas, sampled keys) are compared pairwise; distinct = hash of op shapes; non-trivial = at least one read that failed part-way or was cut by a limit",
-		Real: []string{"bttest handlers on BtreeStorage, LeveldbMemStorage, LeveldbDiskStorage (Rows contract: iteration stops when the callback returns false, range bounds, Clear, Get returns a copy)"},
-		Stub: []string{"gRPC transport", "sampler random source (same draws for the three servers)"},
+		Rule:   "each run = one tape of 3-40 pre-drawn operation records executed against three servers (btree, leveldb-memory, leveldb-disk; every fourth run also the leveldb-memory engine behind a real gRPC connection on a loopback socket, which must answer exactly like the direct-call stub): table create/delete/re-create, family changes, DropRowRange prefix/all, MutateRow(s), CheckAndMutateRow, ReadModifyWriteRow, reads with row sets, limits and filter trees (including invalid nodes that evaluation reaches only on some rows, so the scan fails part-way), SampleRowKeys with identical sampler draws; the normalised responses (status code, rows and cells in order, predicate results, per-entry statuses, table lists and schemas, sampled keys) are compared pairwise; distinct = hash of op shapes; non-trivial = at least one read that failed part-way or was cut by a limit",
+		Real:   []string{"bttest handlers on BtreeStorage, LeveldbMemStorage, LeveldbDiskStorage (Rows contract: iteration stops when the callback returns false, range bounds, Clear, Get returns a copy)"},
+		Stub:   []string{"gRPC transport", "sampler random source (same draws for the three servers)"},
 		Assume: []string{"error message texts and the number of response messages are not compared; for a failed read only the status is compared (how many rows were streamed before the failure is transport-dependent)", "ListTables order is unspecified (sorted)"},
-		Run: runC17,
+		Run:    runC17,
 	})
-	expectedProbes["C17"] = []string{"c17.scan_failed_partway", "c17.limit_cut", "c17.drop_all", "c17.recreated_table", "c17.equal"}
+	expectedProbes["C17"] = []string{"c17.scan_failed_partway", "c17.limit_cut", "c17.drop_all", "c17.recreated_table", "c17.equal", "c17.real_grpc_transport"}
 }
 
 func runC17(r *Run) {
@@ -31,10 +31,17 @@ func runC17(r *Run) {
 	for i := 0; i < nOps; i++ {
 		recs = append(recs, record(ps, 700).v)
 	}
-	var traces [3][]string
+	// every fourth run adds a fourth server: the leveldb memory engine behind a real gRPC
+	// connection on a loopback socket (transport fidelity of the direct-call stub)
+	names := []string{engBtree, engLdbMem, engLdbDisk}
+	if r.Index%4 == 0 {
+		names = append(names, engLdbMemGRPC)
+		r.Probe("c17.real_grpc_transport")
+	}
+	traces := make([][]string, len(names))
 	var shapes []string
 	defer func() { simRng = nil }()
-	for wi, engine := range []string{engBtree, engLdbMem, engLdbDisk} {
+	for wi, engine := range names {
 		clk := NewClock(1_700_000_000_000_000, 1_700_000_000_000_000_000)
 		simRng = &Stream{name: "rng.local", state: splitmix(rngSeed)}
 		w := NewBTWorld(r, engine, clk, "")
@@ -146,12 +153,15 @@ func runC17(r *Run) {
 		r.Mix(s)
 	}
 	r.Sample = map[string]interface{}{"requests": nOps, "first_ops": firstN(shapes, 12)}
-	names := []string{engBtree, engLdbMem, engLdbDisk}
 	for i := 0; i < nOps; i++ {
-		for a := 0; a < 3; a++ {
-			for b := a + 1; b < 3; b++ {
+		for a := 0; a < len(names); a++ {
+			for b := a + 1; b < len(names); b++ {
 				if i < len(traces[a]) && i < len(traces[b]) && traces[a][i] != traces[b][i] {
-					r.Fail("engines-differ", "", "request %d of the same program is answered differently:\n  %s: %s\n  %s: %s\n  program so far: %v", i, names[a], shortStr(traces[a][i], 1500), names[b], shortStr(traces[b][i], 1500), firstN(shapes, i+1))
+					kind := "engines-differ"
+					if names[b] == engLdbMemGRPC && a == 1 {
+						kind = "transport-differs"
+					}
+					r.Fail(kind, "", "request %d of the same program is answered differently:\n  %s: %s\n  %s: %s\n  program so far: %v", i, names[a], shortStr(traces[a][i], 1500), names[b], shortStr(traces[b][i], 1500), firstN(shapes, i+1))
 					return
 				}
 			}
